@@ -350,3 +350,16 @@ func (d *Driver) CloseAndWait() bool {
 // AllClosed tells whether every accepted publish had its exchange closed;
 // World.Mu must be held (use inside WaitUntil).
 func (d *Driver) AllClosed() bool { return d.Open == 0 }
+
+// GrantsUsed tells whether the read loop consumed all grants; World.Mu held.
+func (d *Driver) GrantsUsed() bool { return d.allow == 0 || d.W.readerState == "done" }
+
+// GrantIfPaused grants one ReadSlices invocation when the read loop waits for it.
+func (d *Driver) GrantIfPaused() {
+	d.W.Mu.Lock()
+	if d.W.readerState == "paused" && d.allow == 0 {
+		d.allow = 1
+	}
+	d.W.Mu.Unlock()
+	d.W.cond.Broadcast()
+}
